@@ -21,7 +21,7 @@ IMPL_B = r"impl\s+ArxmlLexer<'_>"
 TYPES = r'''
 pub struct PathBuf { pub opaque: u8 }
 impl Clone for PathBuf {
-    fn clone(&self) -> (r: Self) { PathBuf { opaque: self.opaque } }
+    fn clone(&self) -> (r: Self) ensures r == *self { PathBuf { opaque: self.opaque } }
 }
 
 pub enum ArxmlLexerError {
@@ -32,8 +32,11 @@ pub enum ArxmlLexerError {
     InvalidComment,
 }
 
+pub struct ArxmlParserError { pub opaque: u64 }
+
 pub enum AutosarDataError {
     LexerError { filename: PathBuf, line: usize, source: ArxmlLexerError },
+    ParserError { filename: PathBuf, line: usize, source: ArxmlParserError },
 }
 
 pub enum ArxmlEvent<'a> {
@@ -56,7 +59,7 @@ pub struct ArxmlLexer<'a> {
 pub open spec fn nl(s: Seq<u8>) -> nat { count(s, 10u8) }
 
 pub open spec fn err_line(e: AutosarDataError) -> usize {
-    match e { AutosarDataError::LexerError { line, .. } => line }
+    match e { AutosarDataError::LexerError { line, .. } => line, AutosarDataError::ParserError { line, .. } => line }
 }
 
 // vx::SplitWs -- stands for `slice::split(u8::is_ascii_whitespace)` (rule R12): yields the
